@@ -8,6 +8,7 @@
   executions reusing local names, and barrier-synchronised concurrent executions of one entity.
 -/
 import GV.Eval.RefStmtThm
+import GV.Generated.Facts
 namespace GV.Props.C15
 open GV.Eval
 
@@ -45,5 +46,17 @@ theorem C15_injected_wins (e : Env) (n : String) (o : Obj) (v : Val) (hn : split
   simp only [getValue, hn]
   rw [this]
   rfl
+
+/-- Where the code's rule-local table comes from and who gets hold of it, regenerated from
+    internal/base and context on every run: `RuleEntity.Execute` hands a table made on the spot to
+    the rule's statements; nothing keeps a reference to it in a field, a package variable or a
+    composite literal; it is passed on only to `Evaluate` and the data context's accessors.  So the
+    table of one execution is unreachable from any other execution — also a concurrent one of the
+    same rule entity — which is what the model assumes by construction. -/
+theorem C15_locals_provenance :
+    GV.Generated.Facts.localsArg = "make(map[string]reflect.Value)" ∧
+    GV.Generated.Facts.varsStores = [] ∧
+    GV.Generated.Facts.varsPassedTo =
+      ["Evaluate", "ExecFunc", "ExecMethod", "ExecThreeLevel", "GetValue", "SetMapVarValue", "SetValue"] := by decide
 
 end GV.Props.C15
